@@ -198,6 +198,9 @@ fn parse_pattern_nosubst<L: Language>(
         tok = &tok[1..];
 
         let mut syntax_elems = vec![NestedSyntaxElem::String(op.to_string())];
+        // A bare identifier among the arguments is either a child (a leaf term) or a payload of the operator
+        // (`(lit 7)` for `Lit(u32) = "lit"`): `bare[i]` holds the identifier of `syntax_elems[i]`, if it is one.
+        let mut bare: Vec<Option<String>> = vec![None];
         loop {
             match tok.get(0) {
                 Some(Token::RParen) => break,
@@ -205,24 +208,68 @@ fn parse_pattern_nosubst<L: Language>(
                 None => return Err(ParseError::ParseState(Vec::new())),
             }
 
+            if let Some(Token::Ident(id)) = tok.get(0) {
+                match parse_nested_syntax_elem(tok) {
+                    Ok((se, tok2)) => {
+                        // (an identifier followed by a substitution `a[x := b]` is not bare)
+                        bare.push(if tok2.len() + 1 == tok.len() { Some(id.to_string()) } else { None });
+                        tok = tok2;
+                        syntax_elems.push(se);
+                    }
+                    // not a term of its own: it can only be a payload.
+                    Err(_) => {
+                        bare.push(Some(id.to_string()));
+                        tok = &tok[1..];
+                        syntax_elems.push(NestedSyntaxElem::String(id.to_string()));
+                    }
+                }
+                continue;
+            }
+            bare.push(None);
             let (se, tok2) = parse_nested_syntax_elem(tok)?;
             tok = tok2;
             syntax_elems.push(se);
         }
         tok = &tok[1..];
 
-        let syntax_elems_mock: Vec<_> = syntax_elems
-            .iter()
-            .map(|x| match x {
-                NestedSyntaxElem::String(s) => SyntaxElem::String(s.clone()),
-                NestedSyntaxElem::Slot(s) => SyntaxElem::Slot(*s),
-                NestedSyntaxElem::Pattern(_) => SyntaxElem::AppliedId(AppliedId::null()),
-            })
+        // The reading "every bare identifier is a child" comes first; then the readings that take some of them as payloads.
+        let choices: Vec<usize> = (0..syntax_elems.len())
+            .filter(|i| bare[*i].is_some() && matches!(syntax_elems[*i], NestedSyntaxElem::Pattern(_)))
             .collect();
-        let node = L::from_syntax(&syntax_elems_mock)
-            // every element has to be consumed: `(g c c)` is not a `g` node.
-            .filter(|node| node.to_syntax().len() == syntax_elems_mock.len())
-            .ok_or_else(|| ParseError::FromSyntaxFailed(syntax_elems_mock))?;
+        let mk_mock = |mask: usize| -> Vec<SyntaxElem> {
+            syntax_elems
+                .iter()
+                .enumerate()
+                .map(|(i, x)| match x {
+                    NestedSyntaxElem::String(s) => SyntaxElem::String(s.clone()),
+                    NestedSyntaxElem::Slot(s) => SyntaxElem::Slot(*s),
+                    NestedSyntaxElem::Pattern(_) => match choices.iter().position(|c| *c == i) {
+                        Some(k) if k < usize::BITS as usize && mask & (1 << k) != 0 => SyntaxElem::String(bare[i].clone().unwrap()),
+                        _ => SyntaxElem::AppliedId(AppliedId::null()),
+                    },
+                })
+                .collect()
+        };
+        let mut found = None;
+        for mask in 0..(1usize << choices.len().min(8)) {
+            let mock = mk_mock(mask);
+            let node = L::from_syntax(&mock)
+                // every element has to be consumed: `(g c c)` is not a `g` node.
+                .filter(|node| node.to_syntax().len() == mock.len());
+            if let Some(node) = node {
+                found = Some((node, mask));
+                break;
+            }
+        }
+        let Some((node, mask)) = found else {
+            return Err(ParseError::FromSyntaxFailed(mk_mock(0)));
+        };
+        let payload: Vec<usize> = choices.iter().enumerate().filter(|(k, _)| mask & (1 << k) != 0).map(|(_, i)| *i).collect();
+        let syntax_elems: Vec<NestedSyntaxElem<L>> = syntax_elems
+            .into_iter()
+            .enumerate()
+            .map(|(i, x)| if payload.contains(&i) { NestedSyntaxElem::String(String::new()) } else { x })
+            .collect();
         let syntax_elems = syntax_elems
             .into_iter()
             .filter_map(|x| match x {
